@@ -46,6 +46,8 @@ pub enum Kind {
     Del(Key),
     PutMany,
     DelMany,
+    /// concurrency block only: this node runs one repair cycle against the given node
+    RepairFrom(usize),
 }
 
 #[derive(Clone, Copy, Debug, PartialEq, Eq, Hash)]
@@ -149,6 +151,15 @@ async fn side_conditions<S: Storage>(cluster: &Cluster<S>, when: &str, out: &mut
 }
 
 pub struct ExecCfg {
+    /// concurrency block only: step background tasks one poll at a time for every pair (always
+    /// done for repair races)
+    pub fine_grained: bool,
+    /// concurrency block only: operations issued one after another (and left unreplicated when
+    /// `lose_all_direct` is set) before the two racing clients start
+    pub prelude: Vec<OpSpec>,
+    /// concurrency block only: every direct replication RPC and every batch is lost, so
+    /// that only the anti-entropy exchanges can bring the nodes together
+    pub lose_all_direct: bool,
     pub n_nodes: usize,
     pub mem_store: bool,
     pub allow_restart: bool,
@@ -225,6 +236,7 @@ where
                 .await
                 .map_err(|e| e.to_string()),
             Kind::DelMany => node.store.del_many(KS, vec![1u64, 2u64], op.level).await.map_err(|e| e.to_string()),
+            Kind::RepairFrom(_) => Err("repair clients exist in the concurrency block only".to_string()),
         };
         vkit::e2::settle().await;
         out.events.push(format!("op {}: {} -> {}", oi, op_json(op).to_string_compact(), if res.is_ok() { "Ok".to_string() } else { res.unwrap_err() }));
@@ -382,17 +394,56 @@ pub fn run_one(cfg: &ExecCfg, ops: &[OpSpec], prefix: &[usize]) -> (Run, Outcome
 /// keyspace on the issuing and on the receiving side.
 pub fn run_concurrent(cfg: &ExecCfg, pair: &[OpSpec], prefix: &[usize]) -> (Run, Outcome) {
     let chooser = Rc::new(RefCell::new(Chooser::new(&[])));
-    let out = e2::block_on_fresh(async {
+    let fine = cfg.fine_grained || pair.iter().any(|o| matches!(o.kind, Kind::RepairFrom(_)));
+    let body = async {
         reset_seams();
         let wall = Wall::start();
         let mut out = Outcome { concurrent: true, ..Outcome::default() };
         let layout: Vec<(NodeId, String)> = (0..cfg.n_nodes).map(|i| (i as NodeId + 1, "dc".to_string())).collect();
         let mut cluster: Cluster<FaultStore<MapStore>> = Cluster::start(&layout, |_| Arc::new(FaultStore::new(Arc::new(MapStore::default())))).await;
+        if cfg.lose_all_direct {
+            datacake_rpc::verif::set_policy(|_dst, path| {
+                if path.contains("ConsistencyService") {
+                    NetVerdict::DropRequest
+                } else {
+                    NetVerdict::Deliver
+                }
+            });
+        }
+        for (pi, op) in cfg.prelude.iter().enumerate() {
+            wall.tick();
+            let node = &cluster.nodes[op.node];
+            let payload = |k: Key| format!("prelude write {pi} of key {k} by node{}", op.node).into_bytes();
+            let _ = match op.kind {
+                Kind::Put(k) => node.store.put(KS, k, payload(k), op.level).await.map_err(|e| e.to_string()),
+                Kind::Del(k) => node.store.del(KS, k, op.level).await.map_err(|e| e.to_string()),
+                Kind::PutMany => node.store.put_many(KS, vec![(1u64, payload(1)), (2u64, payload(2))], op.level).await.map_err(|e| e.to_string()),
+                Kind::DelMany => node.store.del_many(KS, vec![1u64, 2u64], op.level).await.map_err(|e| e.to_string()),
+                Kind::RepairFrom(_) => Ok(()),
+            };
+            vkit::e2::settle().await;
+            out.events.push(format!("prelude: {}", op_json(op).to_string_compact()));
+        }
+        // a repair client takes the node's tracker with it and hands it back afterwards
+        let trackers: Vec<Rc<RefCell<Option<datacake_eventual_consistency::verif::RepairState>>>> =
+            pair.iter().map(|_| Rc::new(RefCell::new(None))).collect();
+        let mut taken = Vec::new();
+        for op in pair {
+            if let Kind::RepairFrom(_) = op.kind {
+                taken.push(Some(std::mem::take(&mut cluster.nodes[op.node].repair_state)));
+            } else {
+                taken.push(None);
+            }
+        }
         let clients: Vec<Option<e2::Client>> = pair
             .iter()
             .enumerate()
-            .map(|(ci, op)| {
+            .zip(taken)
+            .map(|((ci, op), tracker)| {
                 let store = cluster.nodes[op.node].store.clone();
+                let group = cluster.nodes[op.node].group.clone();
+                let network = cluster.nodes[op.node].network.clone();
+                let slot = trackers[ci].clone();
                 let op = *op;
                 Some(Box::pin(async move {
                     let payload = |k: Key| format!("concurrent write {ci} of key {k} by node{}", op.node).into_bytes();
@@ -401,18 +452,35 @@ pub fn run_concurrent(cfg: &ExecCfg, pair: &[OpSpec], prefix: &[usize]) -> (Run,
                         Kind::Del(k) => store.del(KS, k, op.level).await.map_err(|e| e.to_string()),
                         Kind::PutMany => store.put_many(KS, vec![(1u64, payload(1)), (2u64, payload(2))], op.level).await.map_err(|e| e.to_string()),
                         Kind::DelMany => store.del_many(KS, vec![1u64, 2u64], op.level).await.map_err(|e| e.to_string()),
+                        Kind::RepairFrom(from) => {
+                            let mut state = tracker.unwrap_or_default();
+                            let peers: BTreeMap<NodeId, std::net::SocketAddr> =
+                                [(from as NodeId + 1, crate::world::node_addr(from as NodeId + 1))].into_iter().collect();
+                            datacake_eventual_consistency::verif::repair_cycle(group, network, &peers, &mut state).await;
+                            *slot.borrow_mut() = Some(state);
+                            Ok(())
+                        },
                     };
                 }) as e2::Client)
             })
             .collect();
         let wall_ref = &wall;
         let on_step = move |_s: usize| wall_ref.tick();
-        let dcfg = e2::DriveCfg { on_step: Some(&on_step), ..e2::DriveCfg::default() };
+        // a repair cycle does its work in spawned tasks: let the explorer slip client steps in between
+        let interleave_background = fine;
+        let dcfg = e2::DriveCfg { on_step: Some(&on_step), interleave_background, ..e2::DriveCfg::default() };
         let run = e2::drive(clients, prefix, &dcfg).await;
+        vkit::e2::settle().await;
+        for (op, slot) in pair.iter().zip(&trackers) {
+            if let Some(state) = slot.borrow_mut().take() {
+                cluster.nodes[op.node].repair_state = state;
+            }
+        }
         out.events.push(format!("concurrent operations {:?}, client steps ran in order {:?}", pair.iter().map(|o| op_json(o).to_string_compact()).collect::<Vec<_>>(), run.ran));
         end_phase(cfg, &mut cluster, &wall, &chooser, &mut out).await;
         (run, out)
-    });
+    };
+    let out = if fine { e2::block_on_fresh_fine(body) } else { e2::block_on_fresh(body) };
     datacake_rpc::verif::reset();
     out
 }
@@ -437,6 +505,9 @@ pub fn case_json(cfg: &ExecCfg, ops: &[OpSpec], run: &Run, out: &Outcome) -> J {
         .set("operations", J::Arr(ops.iter().map(op_json).collect()))
         .set("choices", run.choices.clone())
         .set("concurrent", out.concurrent)
+        .set("lose_all_direct", cfg.lose_all_direct)
+        .set("fine_grained", cfg.fine_grained)
+        .set("prelude", J::Arr(cfg.prelude.iter().map(op_json).collect()))
         .set("events", out.events.clone())
         .set("reads", J::Arr(out.reads.iter().map(docs_json).collect()))
         .set("expected", docs_json(&out.reference))
@@ -456,6 +527,7 @@ pub fn judge(cfg: &ExecCfg, ops: &[OpSpec], run: &Run, out: &Outcome, st: &mut S
     let restarted = out.events.iter().any(|e| e.contains("restarts"));
     let lost = run.choices.iter().zip(&run.widths).any(|(c, w)| *w == 3 && *c != 0);
     let shape = match (restarted, lost) {
+        _ if cfg.lose_all_direct => "all-direct-replication-lost",
         (true, _) => "with-restart",
         (false, true) => "with-message-loss",
         (false, false) => "no-faults",
@@ -545,12 +617,12 @@ pub fn run(tier: Tier) -> i32 {
     let mut summary = vkit::e2::Summary::default();
     let mut blocks_json = Vec::new();
 
-    let two = |mem| ExecCfg { n_nodes: 2, mem_store: mem, allow_restart: true, check_side_conditions_every_event: false };
+    let two = |mem| ExecCfg { fine_grained: false, prelude: vec![], lose_all_direct: false, n_nodes: 2, mem_store: mem, allow_restart: true, check_side_conditions_every_event: false };
     let mut blocks: Vec<Block> = Vec::new();
     let al2 = op_alphabet(2, &[Consistency::None, Consistency::All]);
     let al2_thin: Vec<OpSpec> = al2.iter().copied().filter(|o| !(o.level == Consistency::All && matches!(o.kind, Kind::Put(2) | Kind::Del(2)))).collect();
     let al3 = op_alphabet(3, &[Consistency::None, Consistency::All]);
-    let three = |restart| ExecCfg { n_nodes: 3, mem_store: false, allow_restart: restart, check_side_conditions_every_event: false };
+    let three = |restart| ExecCfg { fine_grained: false, prelude: vec![], lose_all_direct: false, n_nodes: 3, mem_store: false, allow_restart: restart, check_side_conditions_every_event: false };
     if tier.is_thorough() {
         blocks.push(Block { name: "N=2, 2 operations, <=3 deviations", cfg: two(false), histories: sequences(&al2, 2), bound: 3 });
         blocks.push(Block { name: "N=2, 3 operations, <=2 deviations", cfg: two(false), histories: sequences(&al2, 3), bound: 2 });
@@ -628,7 +700,7 @@ pub fn run(tier: Tier) -> i32 {
 
     // ---- concurrency block
     {
-        let ccfg = ExecCfg { n_nodes: 2, mem_store: false, allow_restart: false, check_side_conditions_every_event: false };
+        let ccfg = ExecCfg { fine_grained: tier.is_thorough(), prelude: vec![], lose_all_direct: false, n_nodes: 2, mem_store: false, allow_restart: false, check_side_conditions_every_event: false };
         let base = op_alphabet(2, &[Consistency::None, Consistency::All]);
         let mut pairs: Vec<Vec<OpSpec>> = Vec::new();
         for a in &base {
@@ -639,24 +711,57 @@ pub fn run(tier: Tier) -> i32 {
                 }
             }
         }
+        // a repair exchange racing with a write at the node being read, and with a write at the repairing node
+        for kind in [Kind::Put(1), Kind::Del(1), Kind::PutMany] {
+            pairs.push(vec![OpSpec { node: 0, kind: Kind::RepairFrom(1), level: Consistency::None }, OpSpec { node: 1, kind, level: Consistency::None }]);
+            pairs.push(vec![OpSpec { node: 0, kind: Kind::RepairFrom(1), level: Consistency::None }, OpSpec { node: 0, kind, level: Consistency::None }]);
+        }
         let before = summary.executions;
-        let conc_bound = tier.pick(3usize, 5);
-        let parts = vkit::par::par_map(&pairs, |_, pair| {
+        let conc_bound = std::env::var("VERIF_C01_CONC_BOUND").ok().and_then(|v| v.parse().ok()).unwrap_or(tier.pick(3usize, 5));
+        let lossy = ExecCfg { fine_grained: false, prelude: vec![], lose_all_direct: true, n_nodes: 2, mem_store: false, allow_restart: false, check_side_conditions_every_event: false };
+        // the repair races additionally start from a keyspace that already exists at the source
+        // and has not been synchronised yet (otherwise the repairing node would not fetch it)
+        let with_prelude = |base: &ExecCfg| ExecCfg {
+            fine_grained: false,
+            prelude: vec![OpSpec { node: 1, kind: Kind::Put(2), level: Consistency::None }],
+            lose_all_direct: base.lose_all_direct,
+            n_nodes: 2,
+            mem_store: false,
+            allow_restart: false,
+            check_side_conditions_every_event: false,
+        };
+        let ccfg_p = with_prelude(&ccfg);
+        let lossy_p = with_prelude(&lossy);
+        let mut work: Vec<(Vec<OpSpec>, u8)> = pairs.iter().flat_map(|p| [(p.clone(), 0u8), (p.clone(), 1u8)]).collect();
+        for p in pairs.iter().filter(|p| p.iter().any(|o| matches!(o.kind, Kind::RepairFrom(_)))) {
+            work.push((p.clone(), 2));
+            work.push((p.clone(), 3));
+        }
+        if std::env::var("VERIF_C01_ONLY_REPAIR_RACES").is_ok() {
+            work.retain(|(p, v)| *v == 3 && matches!(p[1].kind, Kind::Put(1)) && p[1].node == 1);
+        }
+        let parts = vkit::par::par_map(&work, |_, (pair, variant)| {
+            let ccfg = match variant {
+                0 => &ccfg,
+                1 => &lossy,
+                2 => &ccfg_p,
+                _ => &lossy_p,
+            };
             let mut st = Stats::default();
             let mut n = 0u64;
             let mut nondet = 0u64;
             let mut stack: Vec<Vec<usize>> = vec![vec![]];
             while let Some(prefix) = stack.pop() {
-                let (run, out) = run_concurrent(&ccfg, pair, &prefix);
+                let (run, out) = run_concurrent(ccfg, pair, &prefix);
                 n += 1;
                 if n % 211 == 1 {
-                    let (run2, out2) = run_concurrent(&ccfg, pair, &prefix);
+                    let (run2, out2) = run_concurrent(ccfg, pair, &prefix);
                     if run2 != run || out2 != out {
                         nondet += 1;
                     }
                 }
                 st.inc("concurrent_executions");
-                judge(&ccfg, pair, &run, &out, &mut st);
+                judge(ccfg, pair, &run, &out, &mut st);
                 if prefix.iter().filter(|c| **c != 0).count() >= conc_bound {
                     continue;
                 }
@@ -677,8 +782,8 @@ pub fn run(tier: Tier) -> i32 {
         }
         blocks_json.push(
             J::obj()
-                .set("block", "concurrency: two client tasks, one operation each, all await-point interleavings (E2), then default end phase")
-                .set("histories", pairs.len())
+                .set("block", "concurrency: two client tasks (two operations, or a repair cycle racing with an operation), await-point interleavings (E2), then the end phase once with healthy replication and once with every direct message and batch lost")
+                .set("histories", work.len())
                 .set("deviation_bound", format!("{conc_bound} preemptions / ordering deviations"))
                 .set("executions", summary.executions - before),
         );
@@ -722,7 +827,10 @@ pub fn replay(case: &J) -> i32 {
         .and_then(|v| v.as_arr())
         .unwrap_or(&[])
         .iter()
-        .filter_map(|o| al.iter().copied().find(|a| op_json(a).as_str() == o.as_str()))
+        .filter_map(|o| {
+            let repairs = (0..n_nodes).flat_map(|a| (0..n_nodes).map(move |b| OpSpec { node: a, kind: Kind::RepairFrom(b), level: Consistency::None }));
+            al.iter().copied().chain(repairs).find(|a| op_json(a).as_str() == o.as_str())
+        })
         .collect();
     let choices: Vec<usize> = case
         .get("choices")
@@ -731,7 +839,11 @@ pub fn replay(case: &J) -> i32 {
         .iter()
         .filter_map(|v| v.as_u64().map(|x| x as usize))
         .collect();
+    let al_for_prelude = op_alphabet(n_nodes, &levels);
     let cfg = ExecCfg {
+        fine_grained: case.get("fine_grained").and_then(|v| v.as_bool()).unwrap_or(false),
+        prelude: case.get("prelude").and_then(|v| v.as_arr()).unwrap_or(&[]).iter().filter_map(|o| al_for_prelude.iter().copied().find(|a| op_json(a).as_str() == o.as_str())).collect(),
+        lose_all_direct: case.get("lose_all_direct").and_then(|v| v.as_bool()).unwrap_or(false),
         n_nodes,
         mem_store: case.get("store").and_then(|v| v.as_str()) == Some("MemStore"),
         allow_restart: case.get("restart_events_enabled").and_then(|v| v.as_bool()).unwrap_or(true),
